@@ -368,22 +368,44 @@ int main(int argc, char **argv) {
   size_t sz = sizeof(struct ref) * (size_t)nprog * NMASK * NMODE * 2;
   REF = mmap(NULL, sz, PROT_READ | PROT_WRITE, MAP_SHARED | MAP_ANONYMOUS, -1, 0);
   fflush(res);
-  pid_t pid = fork();
-  if (pid == 0) {
-    unsigned rs = 1;
-    uint8_t *buf = malloc(BUFSZ);
-    for (int p = 0; p < nprog; p++)
-      for (int m = 0; m < NMASK; m++)
-        for (int mode = 0; mode < NMODE; mode++)
-          for (int in = 0; in < 2; in++)
-            one(p, m, mode, in, buf, &REF[RIDX(p, m, mode, in)], &rs, 0, 0, 0);
-    _exit(0);
+  /* THREADS_REF_FILE: the single-threaded reference table is computed once (by an uninstrumented build of the same sources: under
+   * ThreadSanitizer it costs more than the threaded run itself) and loaded by every run; without the variable, or if the file does
+   * not fit this program list, it is computed here in a forked child */
+  const char *rf = getenv("THREADS_REF_FILE");
+  long hdr[4] = {nprog, NMASK, NMODE, BUFSZ}, got[4] = {0, 0, 0, 0};
+  int loaded = 0, st = 0;
+  if (rf) {
+    FILE *fr = fopen(rf, "rb");
+    if (fr) {
+      loaded = fread(got, sizeof got, 1, fr) == 1 && !memcmp(got, hdr, sizeof hdr) && fread(REF, 1, sz, fr) == sz;
+      fclose(fr);
+    }
   }
-  int st = 0;
-  waitpid(pid, &st, 0);
-  if (!WIFEXITED(st) || WEXITSTATUS(st) != 0) {
-    fprintf(res, "E reference child failed %d\n", st);
-    return 3;
+  if (!loaded) {
+    pid_t pid = fork();
+    if (pid == 0) {
+      unsigned rs = 1;
+      uint8_t *buf = malloc(BUFSZ);
+      for (int p = 0; p < nprog; p++)
+        for (int m = 0; m < NMASK; m++)
+          for (int mode = 0; mode < NMODE; mode++)
+            for (int in = 0; in < 2; in++)
+              one(p, m, mode, in, buf, &REF[RIDX(p, m, mode, in)], &rs, 0, 0, 0);
+      _exit(0);
+    }
+    waitpid(pid, &st, 0);
+    if (!WIFEXITED(st) || WEXITSTATUS(st) != 0) {
+      fprintf(res, "E reference child failed %d\n", st);
+      return 3;
+    }
+    if (rf && getenv("THREADS_REF_SAVE")) {
+      FILE *fw = fopen(rf, "wb");
+      if (fw) {
+        fwrite(hdr, sizeof hdr, 1, fw);
+        fwrite(REF, 1, sz, fw);
+        fclose(fw);
+      }
+    }
   }
   int ncold = argc > 6 ? atoi(argv[6]) : 0;
   if (ncold > 0) {
